@@ -37,7 +37,7 @@ RULE = ('case = (space, representation name, member state or observation). non-t
         'member encoding).')
 ASSUMPTIONS = ['spaces with at least one representable type; NONE colour always declared']
 REQUIRED = {'quick': {'convert.state': 3000, 'convert.observation': 3000, 'keys.checked': 20000, 'gym.contains': 3000,
-                      'trajectory.steps': 1500, 'spaces': 50}}
+                      'trajectory.steps': 1500, 'spaces': 50, 'switch.reads': 60}}
 
 
 def check_arrays(ctx, label, rep, d, payload, gym_space=None):
@@ -177,14 +177,29 @@ def trajectories(ctx, seeds, steps):
                 check_arrays(ctx, f'{name} {rep_name} t={t} observation', orep, obs, payload, genv.observation_space)
                 if srep is not None:
                     check_arrays(ctx, f'{name} {rep_name} t={t} state', srep, genv.state, payload, genv.state_space)
-                if t == steps // 2:
-                    rep_name2 = repgen.NAMES[(job + 1) % 3]
+                if t in (steps // 4, steps // 2, (3 * steps) // 4, steps // 2 + 1):
+                    # switching the representation mid-episode (every ordered pair over the runs): what is read *right after*
+                    # the switch, before any step or reset, must already lie in the new representation's space
+                    rep_name2 = prng.choice([n for n in repgen.NAMES if n != rep_name])
                     genv.set_observation_representation(rep_name2)
                     orep = genv.outer_env.observation_representation
                     if srep is not None:
                         genv.set_state_representation(rep_name2)
                         srep = genv.outer_env.state_representation
+                    ctx.addset('switches', f'{rep_name}->{rep_name2}')
                     rep_name = rep_name2
+                    payload = {'config': name, 'seed': s, 'rep': rep_name, 't': t}
+                    for reader_name, reader in (('outer_env.observation', lambda: genv.outer_env.observation),
+                                                ('outer_env.observation (second read)', lambda: genv.outer_env.observation)):
+                        ok_r, now = call_real(reader)
+                        if ok_r:
+                            ctx.hit('switch.reads')
+                            check_arrays(ctx, f'{name} {rep_name} t={t} {reader_name} right after the switch', orep, now, payload,
+                                         genv.observation_space)
+                    if srep is not None:
+                        ok_r, now = call_real(lambda: genv.state)
+                        if ok_r:
+                            check_arrays(ctx, f'{name} {rep_name} t={t} state right after the switch', srep, now, payload, genv.state_space)
                 a = prng.randrange(genv.action_space.n)
                 ok, res = call_real(genv.step, a)
                 if ok:
